@@ -30,9 +30,27 @@ pub fn catch<T, F: FnOnce() -> T>(f: F) -> Option<T> {
   panic::catch_unwind(AssertUnwindSafe(f)).ok()
 }
 
+static LAST_PANIC: std::sync::Mutex<String> = std::sync::Mutex::new(String::new());
+
+/// `file:message` (path relative to the crate) of the most recent panic caught by [`catch`].
+pub fn last_panic_site() -> String {
+  LAST_PANIC.lock().map(|s| s.clone()).unwrap_or_default()
+}
+
 pub fn silence_panics() {
-  if std::env::var("HPX_PANIC_VERBOSE").is_ok() { return; }
-  panic::set_hook(Box::new(|_| {}));
+  let verbose = std::env::var("HPX_PANIC_VERBOSE").is_ok();
+  let default = panic::take_hook();
+  panic::set_hook(Box::new(move |info| {
+    if let Some(l) = info.location() {
+      let f = l.file();
+      let f = f.rsplit_once("/src/").map(|(_, b)| b).unwrap_or(f);
+      // file + message (not the line number: unrelated edits above the site must not change the identification)
+      let msg = info.payload().downcast_ref::<&str>().map(|m| m.to_string()).or_else(|| info.payload().downcast_ref::<String>().cloned()).unwrap_or_default();
+      let msg: String = msg.chars().take(80).map(|c| if c.is_ascii_alphanumeric() || "._<>=()".contains(c) { c } else { '_' }).collect();
+      if let Ok(mut s) = LAST_PANIC.lock() { *s = format!("{}:{}", f, msg); }
+    }
+    if verbose { default(info); }
+  }));
 }
 
 /// One violation found by a property oracle on the implementation.
